@@ -7,6 +7,7 @@ import BV.C18.PipeLemmas
 import BV.C18.Explain
 import BV.C18.OrderLemmas
 import BV.C18.Trickle
+import BV.C18.SelfConn
 import BV.Generated.C18
 namespace BV.C18
 open Spec
@@ -79,6 +80,32 @@ theorem rejects_self (c : Cfg) (v : Nat) (ts : List Tok) (h : c.allowSelf = fals
     simp [step, classify, stepAwaitVersion, h, St.close]
   rw [hs, HsLemmas.runFrom_closed c _ _ rfl]
   simp
+
+/-- The ordering obligation behind `Tok.version _ self`: with the code's program order
+(`sentNonces.Add` in `localVersionMsg` BEFORE the version message's first byte can be observed by
+the remote), under every interleaving of the outbound goroutine with the inbound peer's check, the
+check sees the nonce in the cache. (Ghost assumption: fewer than the cache's 50 entries are
+registered by other peers in between.) -/
+theorem self_nonce_registered_before_visible (sched : List SelfConn.Choice) (b : Bool)
+    (h : (SelfConn.exec (SelfConn.init SelfConn.codeOrder) sched).checked = some b) : b = true :=
+  (SelfConn.good_exec sched _ SelfConn.good_init).2 b h
+
+/-- The order matters: emitting before registering admits a schedule in which the inbound side
+does not recognise its own process's nonce. -/
+theorem self_nonce_order_matters :
+    ∃ sched, (SelfConn.exec (SelfConn.init [.emit, .register]) sched).checked = some false :=
+  ⟨[.o, .i, .o], by decide⟩
+
+/-- A node that connects to itself refuses the connection under every scheduling of its two
+peers: whatever flag the inbound side's check produced, it is `true`, so `rejects_self` applies —
+the inbound peer closes right after reading the version, delivers nothing and never records it. -/
+theorem self_connection_refused (c : Cfg) (hallow : c.allowSelf = false) (v : Nat) (ts : List Tok)
+    (sched : List SelfConn.Choice) (b : Bool)
+    (h : (SelfConn.exec (SelfConn.init SelfConn.codeOrder) sched).checked = some b) :
+    run c (.version v b :: ts) =
+      (⟨.closed, c.ours, false, false⟩, (init c).2 ++ [Ev.rd (.version v b)]) := by
+  rw [self_nonce_registered_before_visible sched b h]
+  exact rejects_self c v ts hallow
 
 /-- Obsolete versions (below `MinAcceptableProtocolVersion`) are refused: the peer closes, never
 acknowledges, and the only listener invoked is `OnVersion`. -/
